@@ -70,6 +70,8 @@ def act_jdn(a):
         return [Kw("start"), a[1], op_jdn(a[2])]
     if a[0] == "cancel":
         return [Kw("cancel"), a[1], Kw(a[2])]
+    if a[0] == "cancelx":
+        return [Kw("cancelx"), a[1], Kw(a[2]), a[3]]
     if a[0] == "tick":
         return [Kw("tick"), a[1]]
     if a[0] == "pexit":
@@ -150,6 +152,8 @@ def make_actions(cfg):
                 if not pr["waited"]:
                     ops += [("pwait", k), ("dl", 2, ("pwait", k))]
             for p in range(npipes):
+                if m.pipes[p].rclosed:
+                    continue
                 ops += [("write-bad", p, 0.5), ("write-bad", p, 2.5), ("badw", p, 0.5, ("sleep", 3)),
                         ("badw", p, 0.5, ("read", p, 4, None))]
                 if nchan:
@@ -189,6 +193,9 @@ def make_actions(cfg):
             acts += [("start", w, o) for o in ops]
         for w in m.blocked():
             acts.append(("cancel", w, "cancel%d" % d))
+            if m.wait[w][1][0] in ("read", "chunk") and not cfg.get("focus"):
+                # shutdown idiom: cancel the reader and close its stream in the same turn
+                acts.append(("cancelx", w, "cancel%d" % d, m.wait[w][1][1]))
         nt = m.next_timer()
         if nt is not None:
             acts.append(("tick", (nt - m.now) / 1000.0))
@@ -237,6 +244,8 @@ def judge(m, a, obs):
         pc, m2 = m.step_op(a[1], a[2])
     elif a[0] == "cancel":
         pc, m2 = m.cancel(a[1], a[2])
+    elif a[0] == "cancelx":
+        pc, m2 = m.cancel_close(a[1], a[2])
     elif a[0] == "pexit":
         pc, m2 = m.pexit(a[1])
     else:
@@ -334,6 +343,8 @@ def replay_text(cfg, hist, what):
             lines.append("(start %d %s (fn [] %s))" % (a[1], jdn(e), e))
         elif a[0] == "cancel":
             lines.append("(ev/cancel (fibers %d) :%s) (ev/sleep 0.05)" % (a[1], a[2]))
+        elif a[0] == "cancelx":
+            lines.append("(ev/cancel (fibers %d) :%s) (ev/close ((pipes %d) 0)) (ev/sleep 0.05)" % (a[1], a[2], a[3]))
         elif a[0] == "pexit":
             lines.append('(ev/write ((procs %d) :in) "\\n") (ev/sleep 0.2)' % a[1])
         else:
